@@ -53,9 +53,13 @@ def option_desc(draw, kinds=("ip", "ip", "ip", "lb", "cfg", "cfg", "unk"), nokey
     if k == "ip":
         t = draw(st.sampled_from(wire.IP4_TYPES + wire.IP6_TYPES))
         if t in wire.IP4_TYPES:
-            addr = str(ipaddress.IPv4Address(draw(st.one_of(st.sampled_from([0, 0x0A000002, 0xE0F4E0F5, 0xFFFFFFFF]), st.integers(0, 2**32 - 1)))))
+            addr = str(ipaddress.IPv4Address(draw(st.one_of(st.sampled_from([0, 0x0A000002, 0xE0F4E0F5, 0xFFFFFFFF, 0x7F000001, 0xA9FE0001, 0xE0000001]), st.integers(0, 2**32 - 1)))))
         else:
-            addr = str(ipaddress.IPv6Address(draw(st.one_of(st.sampled_from([0, 1, 2**128 - 1, 0x20010DB8 << 96]), st.integers(0, 2**128 - 1)))))
+            # besides arbitrary ones, addresses of the ranges the address classes treat specially: unspecified, loopback,
+            # IPv4-mapped and IPv4-compatible, 6to4, link-local, multicast
+            special = [0, 1, 2**128 - 1, 0x20010DB8 << 96, (0xFFFF << 32) | 0xC0000211, (0xFFFF << 32) | 0x0A000002, 0xC0000211, (0x2002 << 112) | (0xC0000211 << 80),
+                       (0xFE80 << 112) | 1, (0xFF02 << 112) | 0x10005, (0x64FF9B << 104) | 0xC0000211]
+            addr = str(ipaddress.IPv6Address(draw(st.one_of(st.sampled_from(special), st.integers(0, 2**128 - 1)))))
         proto = draw(st.one_of(st.sampled_from([6, 17, 17, 0, 1, 0xFF]), st.integers(0, 255)))
         return dict(k="ip", type=t, addr=addr, proto=proto, port=draw(u16))
     if k == "lb":
